@@ -1182,7 +1182,9 @@ class SStr:
         return SStr(out)
 
     def count(self, sub):
-        raise NotModelled("SStr.count")
+        if len(sub) != 1:
+            raise NotModelled("SStr.count(%r)" % (sub,))
+        return sum(1 for c in self.items if SStr._isin(c, sub))
 
     # ---- text methods (fork on symbolic characters where needed)
     @staticmethod
